@@ -6,6 +6,8 @@ From Coq Require Import List String NArith Bool.
 From Coq Require Import Permutation.
 From AM Require Import Rust.Ast Gen.Archive Ref.Tree Proofs.Tree Ref.Archive Proofs.Archive Tie.Archive Gen.Private Tie.Graph Gen.Embed Tie.Embed Ref.Embed Proofs.Embed.
 From AM Require Gen.Fs Tie.Fs.
+From AM Require Tie.Watcher.
+From AM Require Import Tie.ArchivePath.
 Import ListNotations.
 
 Theorem C04_listing_is_exactly_the_direct_children : forall t d l,
@@ -130,3 +132,10 @@ Theorem C04_code_filesystem_source :
   fn_body Gen.Fs.FileSystem_path_of = Tie.Fs.expected_FileSystem_path_of /\
   fn_body Gen.Fs.FileSystem_read_dir = Tie.Fs.expected_FileSystem_read_dir.
 Proof. exact Tie.Fs.filesystem_source_as_modelled. Qed.
+
+(* the member paths of an archive are parsed as the model says, `..` and `.` components included:
+   `d/../f.x` is the file f of the root (Tie/ArchivePath.v; finite sweep, bound in the statement) *)
+Theorem C04_code_archive_paths_parsed_as_modelled :
+  forallb (fun p => Tie.Watcher.outcome_eqb (gen_parse zip_register_file p) (ref_parse p) &&
+                    Tie.Watcher.outcome_eqb (gen_parse tar_register_file p) (ref_parse p)) member_paths = true.
+Proof. exact archive_paths_bounded_tie. Qed.
